@@ -12,6 +12,7 @@ package rojson
 //@   binds v
 //@   calls Marshal
 //@   params v
+//@   scope v
 //@   maypanic
 //@   track call.*
 //@   ensures [calls-the-wrapped-function-once|C18] count(call.ANY) == 1 && called(call.Marshal)
@@ -23,6 +24,7 @@ package rojson
 //@   binds v
 //@   calls Unmarshal
 //@   params v
+//@   scope t v
 //@   maypanic
 //@   track call.*
 //@   ensures [calls-the-wrapped-function-once|C18] count(call.ANY) == 1 && called(call.Unmarshal)
